@@ -204,6 +204,12 @@ impl Kernel {
         // pass will clean up once the TCP state reaches `Closed`.
     }
 
+    /// Table sizes for external monitors (read-only).
+    #[cfg(turmoil_verif)]
+    pub(crate) fn verif_counts(&self) -> crate::verif::HostCounts {
+        self.sockets.verif_counts()
+    }
+
     /// Iterate every socket in the table, in insertion order.
     pub fn sockets(&self) -> impl Iterator<Item = (Fd, &Socket)> {
         self.sockets.iter()
@@ -618,6 +624,8 @@ impl Kernel {
             let drained: Vec<_> = std::mem::take(&mut self.outbound).into_iter().collect();
             for pkt in drained {
                 if self.is_local(pkt.dst) {
+                    #[cfg(turmoil_verif)]
+                    crate::verif::loopback_tap(&self.addresses, &pkt);
                     self.deliver(pkt);
                 } else {
                     out.push(pkt);
